@@ -21,7 +21,7 @@ def trait_path(t):
     if t in BINOPS or t in UNOPS or t.endswith("Assign") or t in ("Deref", "DerefMut"):
         return "::core::ops::" + t
     return {"Copy": "::core::marker::Copy", "Clone": "::core::clone::Clone", "Debug": "::core::fmt::Debug",
-            "Default": "::core::default::Default"}[t]
+            "Default": "::core::default::Default"}.get(t, "::unknown::" + t)
 
 
 def noh():
